@@ -29,13 +29,15 @@ def state_known(st):
 
 
 def mk_state_check(lib, cls, name):
-    """check_thread_state_and_update_<x>_state(): ASSUMED contract (the body's ValueError branch is unreachable only by a
-    counting argument over thread states that is outside the verifier's reach): it only touches the state accounting."""
+    """check_thread_state_and_update_<x>_state(): recounts the worker states and moves the node to IDLE / PROCESSING /
+    BLOCKED accordingly; its ValueError branch is unreachable because every listed worker is PROCESSING or BLOCKED
+    (counting axiom A-count)."""
     con = FnContract(name, [], post=lambda c: [Clause("state-known", lambda c: state_known(c.new), ("C17",))],
+                     pre=lambda st, args: [("state-known", state_known(st)),
+                                           ("threads-within-capacity", st.f["worker_thread_list"].len <= st.f["work_capacity"].t)],
                      modifies=("state", "stats.last_state_change_time", TT + "SETUP_STATE", TT + "IDLE_STATE",
                                TT + "PROCESSING_STATE", TT + "BLOCKED_STATE"),
-                     uses_inv=False, keeps_inv=False, props=("C17",))
-    con.assumed = True
+                     uses_inv=False, keeps_inv=False, props=("C17", "C20"))
     return con
 
 
@@ -106,7 +108,8 @@ def install(lib):
     C["Splitter"]["reset"] = mk_reset(lib, "Splitter", ("in", "out"), extra_none=("processing_delay",))
     for cls in ("Splitter", "Combiner"):
         C[cls]["reset"].modifies = C[cls]["reset"].modifies + ("state",)
-        for src in ("_update_worker_occupancy", "_update_avg_time_spent_in_processing", "_update_avg_time_spent_in_blocked"):
+        for src in ("_update_worker_occupancy", "_update_avg_time_spent_in_processing", "_update_avg_time_spent_in_blocked",
+                    "_count_worker_state"):
             C[cls][src] = C["Machine"][src]
 
     # ------------------------------------------------------------------ Combiner.worker(item, req_token)
